@@ -188,6 +188,14 @@ func runLockset(run *lib.Run, st *lib.Stats, sh *lib.Shards, next func() int) {
 	st.Extra["locations"] = len(tr.Locs) - 1
 	st.Extra["parts"] = len(tr.Parts)
 	st.Extra["exported_methods"] = tr.Methods
+	st.Extra["checkpoint_channels"] = tr.Ckpt
+	for _, ch := range tr.Ckpt {
+		st.Count(fmt.Sprintf("ckpt:%s:%d:%d:%d", ch.Name, len(ch.LiveSites), len(ch.SnapSites), len(ch.StateUses)), len(ch.LiveSites)+len(ch.SnapSites) > 0, "checkpoint-channel")
+		if len(ch.LiveSites) > 0 && len(ch.StateUses) > 0 {
+			failLater("ckpt-handoff:"+ch.Name, fmt.Sprintf("core/checkpoint: a live registered checkpoint is handed to the file goroutine through fileChannels.%s at %s, and the file goroutine calls %s on it: state is read off the block path while the next blocks are processed", ch.Sender, ch.LiveSites[0], ch.StateUses[0]),
+				map[string]interface{}{"channel": ch.Name, "sender": ch.Sender, "live_call_sites": ch.LiveSites, "state_methods_in_file_goroutine": ch.StateUses, "handlers": ch.Handlers})
+		}
+	}
 	st.Extra["calls_not_followed"] = tr.Unknown
 	st.Extra["other_functions_taking_the_lock"] = tr.ExtraEntries
 	st.Extra["deep_copy_returns"] = tr.Deep
